@@ -6,6 +6,8 @@ REPO = "/repo"
 BUILD = os.path.join(VERIF, ".build")
 HARNESS_DIR = os.path.join(VERIF, "harness")
 HARNESS_BIN = os.path.join(BUILD, "harness", "release", "t2n-harness")
+# the same harness built WITHOUT debug assertions and overflow checks (profile `plain`)
+HARNESS_PLAIN = os.path.join(BUILD, "harness", "plain", "t2n-harness")
 LEAN_DIR = os.environ.get("T2N_LEAN_DIR", os.path.join(VERIF, "lean"))
 DRIVER_BIN = os.environ.get("T2N_DRIVER", os.path.join(LEAN_DIR, ".lake", "build", "bin", "t2n-driver"))
 LANGS = ["en", "fr", "es", "pt", "it", "de", "nl"]
@@ -26,6 +28,9 @@ def build_harness():
     os.makedirs(BUILD, exist_ok=True)
     lock = os.path.join(HARNESS_DIR, "Cargo.lock")
     r = sh("cargo build --release --offline 2>&1", cwd=HARNESS_DIR, check=False)
+    if r.returncode != 0:
+        return False, r.stdout[-6000:]
+    r = sh("cargo build --profile plain --offline 2>&1", cwd=HARNESS_DIR, check=False)
     if r.returncode != 0:
         return False, r.stdout[-6000:]
     return True, ""
@@ -110,11 +115,11 @@ def ensure_cc_table(force=False):
     return CC_TABLE
 
 
-def run_both(reqfile, workdir, tag):
+def run_both(reqfile, workdir, tag, binary=None):
     """Run implementation and model on the same request file; return (impl_lines, model_lines)."""
     a = os.path.join(workdir, tag + ".impl")
     b = os.path.join(workdir, tag + ".model")
-    rc1, e1 = run_exec(HARNESS_BIN, reqfile, a)
+    rc1, e1 = run_exec(binary or HARNESS_BIN, reqfile, a)
     rc2, e2 = run_exec(DRIVER_BIN, reqfile, b, args=("--cc", ensure_cc_table()))
     if rc1 != 0:
         raise RuntimeError("harness exec failed rc=%d: %s" % (rc1, e1))
